@@ -4,6 +4,7 @@ mod c02;
 mod probe;
 mod c03;
 mod c04;
+mod c05;
 mod c08;
 mod c09;
 mod asis;
@@ -12,6 +13,7 @@ mod c11;
 mod ordu;
 mod c13;
 mod c14;
+mod c20;
 mod denote;
 mod universe;
 
@@ -82,6 +84,16 @@ fn main() {
         "c04" => {
             let rep = Report::new("C04", "model_checking");
             let cov = c04::run(&rep);
+            rep.finish(cov)
+        }
+        "c05" => {
+            let rep = Report::new("C05", "model_checking");
+            let cov = c05::run(&rep);
+            rep.finish(cov)
+        }
+        "c20" => {
+            let rep = Report::new("C20", "exploration");
+            let cov = c20::run(&rep);
             rep.finish(cov)
         }
         _ => {
